@@ -14,7 +14,7 @@ FILL = 46  # '.' : the bytes already sitting in the buffer when the script start
 
 class Oblig:
     """decide `pc => claim`: z3 first (short cap), then cvc5 with integer blasting (divide-by-10 chains)"""
-    def __init__(self, z3_cap_ms=4000, cvc5_cap_s=120):
+    def __init__(self, z3_cap_ms=10000, cvc5_cap_s=120):
         self.z3_cap, self.cvc5_cap = z3_cap_ms, cvc5_cap_s
         self.n = self.n_cvc5 = 0
         self.time = 0.0
@@ -238,6 +238,10 @@ class WriterCheck:
         return run
 
     def check_script(self, script, k=None, end_with='flush', roundtrip=None, reader_prog=None, max_paths=5000):
+        # plain symbolic values of narrow types (not digit-parametrised): table lookups at a symbolic index may be expanded into
+        # if-then-else windows; with wide types the same expansion produced queries that ran for hours, so it stays off there
+        narrow = [op for op in script if op[0] == 'int' and BITS.get(op[1], 128) <= 16]
+        self.prog.allow_sym_window = bool(narrow) and all(op[0] in ('int', 'flush', 'char', 'str') for op in script) and len(narrow) == sum(1 for op in script if op[0] == 'int')
         paths = explore(self.prog, self.body(script, k, end_with), max_paths=max_paths)
         viol, n_obl, inconc = [], 0, []
         for p in paths:
